@@ -923,8 +923,14 @@ func (h *handler) acquireGroupLease(ctx context.Context, groupID string) int16 {
 	if h.groupLeaseManager == nil {
 		return 0
 	}
+	owned := h.groupLeaseManager.Owns(groupID)
 	err := h.groupLeaseManager.Acquire(ctx, groupID)
 	if err == nil {
+		if !owned && h.coordinator != nil {
+			// the lease was not ours until now: another broker may have coordinated the
+			// group in the meantime, so a cached copy of its state must not be used
+			h.coordinator.DropGroupState(groupID)
+		}
 		return 0
 	}
 	if errors.Is(err, metadata.ErrNotOwner) || errors.Is(err, metadata.ErrShuttingDown) {
@@ -2082,6 +2088,14 @@ func (h *handler) partitionLog(ctx context.Context, topic string, partition int3
 	}
 }
 
+// coordinatorConfig ties the group coordinator's background sweep to the group leases.
+func coordinatorConfig(leases *metadata.GroupLeaseManager) *broker.CoordinatorConfig {
+	if leases == nil {
+		return nil
+	}
+	return &broker.CoordinatorConfig{OwnsGroup: leases.Owns}
+}
+
 func newHandler(store metadata.Store, s3Client storage.S3Client, brokerInfo protocol.MetadataBroker, logger *slog.Logger) *handler {
 	readAhead := parseEnvInt("KAFSCALE_READAHEAD_SEGMENTS", 2)
 	cacheSize := parseEnvInt("KAFSCALE_CACHE_BYTES", 0)
@@ -2144,7 +2158,7 @@ func newHandler(store metadata.Store, s3Client storage.S3Client, brokerInfo prot
 			CacheEnabled:      true,
 			Logger:            logger,
 		},
-		coordinator:          broker.NewGroupCoordinator(store, brokerInfo, nil),
+		coordinator:          broker.NewGroupCoordinator(store, brokerInfo, coordinatorConfig(groupLeaseManager)),
 		leaseManager:         leaseManager,
 		groupLeaseManager:    groupLeaseManager,
 		s3Health:             health,
